@@ -48,6 +48,9 @@ CHECKS = {
  "C13": ("fault_enumeration", "crash-point enumeration (file set after every storage operation, restart on a copy) over id ranges + delay-bounded exhaustive schedule exploration of overlapping publication goroutines of the real Store",
          "2-4 consecutive checkpoints from 95 start ids (0..70, around 2^6, 2^12, 2^16, 2^32), in memory and on the real LocalDirectory: after every storage operation a new Store loads the highest completely written checkpoint; three checkpoints created back to back with their publication goroutines interleaved in every way within 4-5 delays: Remove never targets the newest published checkpoint, retained notifications and CurrentCheckpoint never go back",
          "storage operations are atomic; scheduling points at synchronisation operations", "DESIGN.md §5 C13"),
+ "C14": ("exploration", "exhaustive enumeration of savepoint request points, tick relations, worker counts and acknowledgement orders plus deviation-bounded delivery orders in a cluster simulation of the real Job, Operators and SourceRunners with one storage namespace; wipe-and-restore from the savepoint URI",
+         "W in {1,2} workers, savepoint requested after 0/1/2/4/7 delivered event batches with the periodic tick absent / completed before / pending (fold), operator acknowledgements in either order, at most one (thorough: two) out-of-order RPC deliveries; then all working storage is deleted and a new job with W' in {1,2} fresh workers starts from the savepoint URI: one StartCheckpoint round per checkpoint id, the original job finishes undisturbed, the restored job never applies a record twice nor misses one and ends with the failure-free state",
+         "in-memory storage namespace; component-internal interleavings not re-explored", "DESIGN.md §5 C14"),
  "C15": ("model_checking", "explicit-state search (choice-sequence DFS with canonical state-key pruning) over the real jobs.Job with scripted nodes under the cooperative scheduler (run to quiescence after every event), invariants on every call the job makes, bounded-liveness suffix from every state",
          "all job states reachable within 5-7 events over register / deregister / heartbeat / clock jump / checkpoint tick / acknowledgement / failing Deploy, WorkerCount 1 and 2 with one standby node of each kind: calls only reach registered live nodes, deploys name exactly WorkerCount nodes, no call reaches an assembly after the job noticed a lost member, redeploys carry the latest completed checkpoint; from every state 'register all, tick, acknowledge' completes a checkpoint with a larger id",
          "scripted nodes (real workers: cluster parts, being added); a node counts as lost once it deregistered or its heartbeat had expired when the job evaluated its registry", "DESIGN.md §5 C15"),
